@@ -9,6 +9,7 @@ package timecache
 
 import (
 	"fmt"
+	"math"
 	"math/rand"
 	"strings"
 	"sync"
@@ -113,7 +114,7 @@ func (comp) Gen(prop string, rng *rand.Rand, tier string) *core.History {
 			return -core.Pick(rng, spanTable)
 		}
 		if core.Chance(rng, 1, 25) {
-			return 1 << 62 // a span at the edge of time.Duration: never expires (spans below the clock's noise are not generated: boundary instants cannot be produced against a real clock)
+			return core.Pick(rng, []int64{1 << 62, math.MaxInt64, math.MaxInt64 - 1}) // spans at the edge of time.Duration ("keep forever"): never expires (spans below the clock's noise are not generated: boundary instants cannot be produced against a real clock)
 		}
 		return core.Pick(rng, spanTable)
 	}
@@ -479,10 +480,10 @@ func (comp) Run(h *core.History, scratch string) *core.Result {
 		refreshed := func(d int64, what string) {
 			if tracked {
 				res.Hit(what + "-of-tracked-key")
-				if now+d < old.t+old.d && now <= old.t+old.d {
+				if expiresAt(now, d) < expiresAt(old.t, old.d) && now <= expiresAt(old.t, old.d) {
 					res.Hit(what + "-shortens-remaining-life")
 				}
-				if now > old.t+old.d {
+				if now > expiresAt(old.t, old.d) {
 					res.Hit(what + "-revives-expired-unswept-key")
 				}
 			}
@@ -522,12 +523,12 @@ func (comp) Run(h *core.History, scratch string) *core.Result {
 					default:
 						res.Hit("upsert-same-span")
 					}
-					if now > old.t+old.d {
+					if now > expiresAt(old.t, old.d) {
 						res.Hit("upsert-of-expired-unswept-key")
 					}
 					// Upsert never shortens the remaining life of a key
-					if now+nd < old.t+old.d {
-						res.Failf("C18", i, "Upsert(%q, %s) at %s moves the expiry earlier: was %s, becomes %s", ks, durStr(d), durStr(now), durStr(old.t+old.d), durStr(now+nd))
+					if expiresAt(now, nd) < expiresAt(old.t, old.d) {
+						res.Failf("C18", i, "Upsert(%q, %s) at %s moves the expiry earlier: was %s, becomes %s", ks, durStr(d), durStr(now), durStr(expiresAt(old.t, old.d)), durStr(expiresAt(now, nd)))
 					}
 					lives[ks] = life{now, nd}
 				} else {
@@ -553,7 +554,7 @@ func (comp) Run(h *core.History, scratch string) *core.Result {
 				res.Hit("empty-key-refused")
 			case tracked:
 				// HasOrAdd of a key still owed its span must find it and leave it alone
-				if now <= old.t+old.d && (!hs || added) {
+				if now <= expiresAt(old.t, old.d) && (!hs || added) {
 					res.Failf("C18", i, "HasOrAdd(%q) at %s answers (has=%v, added=%v) although the key was added at %s with span %s", ks, durStr(now), hs, added, durStr(old.t), durStr(old.d))
 				}
 				if added {
@@ -581,7 +582,7 @@ func (comp) Run(h *core.History, scratch string) *core.Result {
 			f.sweep()
 			for k, l := range lives {
 				present := f.has([]byte(k))
-				if now > l.t+l.d {
+				if now > expiresAt(l.t, l.d) {
 					// a sweep that starts after the span elapsed removes the key
 					if present {
 						res.Failf("C18", i, "Sweep at %s left key %q although its span %s elapsed (latest add/upsert at %s)", durStr(now), k, durStr(l.d), durStr(l.t))
@@ -641,7 +642,7 @@ func (comp) Run(h *core.History, scratch string) *core.Result {
 		// monitor: every key is reported present until its span has elapsed since its latest
 		// add/upsert, whatever sweeps ran; its span and countdown are what the text says
 		for k, l := range lives {
-			if now > l.t+l.d {
+			if now > expiresAt(l.t, l.d) {
 				res.Hit("expired-not-yet-swept")
 				continue
 			}
@@ -668,4 +669,12 @@ func (comp) Run(h *core.History, scratch string) *core.Result {
 		}
 	}
 	return res
+}
+
+// expiresAt: the instant t+d of the monitor's bookkeeping, saturating (a span of time.Duration(MaxInt64) means "never", it does not wrap)
+func expiresAt(t, d int64) int64 {
+	if d > 0 && t > math.MaxInt64-d {
+		return math.MaxInt64
+	}
+	return t + d
 }
